@@ -94,6 +94,7 @@ inductive Reader
   | distancesGet (argsOk : Bool)                     -- hwloc_distances_get / _by_depth / _by_type / _by_name
   | memattrQuery (q : MemQ) (id : Nat) (argsOk : Bool)
   | exportXml (argsOk : Bool)                        -- hwloc_topology_export_xml / _xmlbuffer
+  | diffBuild                                        -- hwloc_topology_diff_build (refreshes distances and ALL memattrs of both operands)
   deriving DecidableEq, Repr
 
 def rd (l : Loc) : Event := { loc := l, acc := .R }
@@ -122,6 +123,13 @@ def exportStatics : List StaticCache := [.nolibxmlExport, .xmlVerbose, .libxmlIn
 
 def lockedRegistry : Event := { loc := .registry, acc := .W, locked := true }
 
+/-- accesses of `hwloc_internal_memattrs_refresh`: every attribute without CACHE_VALID (convenience ones included) -/
+def attrsRefreshEvents (as : List AttrSlot) : List Event :=
+  (List.range as.length).flatMap fun i =>
+    match as[i]? with
+    | some a => rd (.attr i) :: (if a.valid then [] else [wr (.attr i)])
+    | none => []
+
 /-- the footprint of one consulting call started in state `s` -/
 def events (s : TopoState) : Reader → List Event
   | .pure .cpukindQuery => [rd .kinds, rd .topo]
@@ -134,6 +142,7 @@ def events (s : TopoState) : Reader → List Event
       | none => [rd .topo]
       | some a => rd .topo :: rd (.attr id) :: (if refreshes q a then [wr (.attr id)] else [])
   | .exportXml false => [rd .topo]
+  | .diffBuild => rd .topo :: (distsEvents s.dists ++ attrsRefreshEvents s.attrs)
   | .exportXml true =>
       rd .topo :: lockedRegistry :: (exportStatics.flatMap (staticEvents s) ++ distsEvents s.dists ++
         (List.range s.attrs.length).map (fun i => rd (.attr i)) ++ [rd .kinds, lockedRegistry])
@@ -168,17 +177,136 @@ def invalidate (surv : Nat → Bool) (s : TopoState) : TopoState :=
   { s with dists := s.dists.map (fun d => { d with valid := false, survives := surv d.id }),
            attrs := s.attrs.map (fun a => if a.conv then a else { a with valid := false }) }
 
-/-- the tail of `hwloc_topology_load` (topology.c:4253-4275): invalidate, then refresh.  `bindingRestrict`
-    = HWLOC_TOPOLOGY_FLAG_RESTRICT_TO_CPUBINDING / _MEMBINDING removed something: that restrict runs AFTER
-    the refresh and invalidates again. -/
-def loadTail (surv surv2 : Nat → Bool) (bindingRestrict : Bool) (s : TopoState) : TopoState :=
-  let s1 := refresh (invalidate surv s)
-  if bindingRestrict then invalidate surv2 s1 else s1
+/-! ### topology flags, `hwloc_topology_refresh` and the tail of `hwloc_topology_load` as step sequences
 
-/-- every lazy cache is valid; a convenience attribute (which never has NEED_INITIATOR, memattrs.c asserts it)
-    never reaches the validity test, so its flag does not matter -/
+   The two sequences are extracted from topology.c by tools/gen_conc.py (Hw/Gen/ComponentsIR.lean) and must equal
+   the model sequences below (`C17_gen_load_seq_matches`, `C17_gen_refresh_seq_matches`, by `decide`). -/
+
+def flagRestrictToCpubinding : Nat := 16    -- HWLOC_TOPOLOGY_FLAG_RESTRICT_TO_CPUBINDING (1UL<<4)
+def flagRestrictToMembinding : Nat := 32    -- HWLOC_TOPOLOGY_FLAG_RESTRICT_TO_MEMBINDING (1UL<<5)
+def flagNoDistances : Nat := 128            -- HWLOC_TOPOLOGY_FLAG_NO_DISTANCES (1UL<<7)
+def flagNoMemattrs : Nat := 256             -- HWLOC_TOPOLOGY_FLAG_NO_MEMATTRS (1UL<<8)
+def flagNoCpukinds : Nat := 512             -- HWLOC_TOPOLOGY_FLAG_NO_CPUKINDS (1UL<<9)
+
+def hasFlag (flags mask : Nat) : Bool := flags &&& mask != 0
+
+inductive LoadStep
+  | rankKinds          -- hwloc_internal_cpukinds_rank
+  | invalidateDists    -- hwloc_internal_distances_invalidate_cached_objs
+  | refreshDists       -- hwloc_internal_distances_refresh
+  | needRefreshAttrs   -- hwloc_internal_memattrs_need_refresh
+  | refreshAttrs       -- hwloc_internal_memattrs_refresh
+  | setLoaded          -- state |= IS_LOADED
+  | restrictCpubind    -- hwloc_get_cpubind + hwloc_topology_restrict
+  | restrictMembind    -- hwloc_get_membind + hwloc_topology_restrict(BYNODESET)
+  | refreshAll         -- hwloc_topology_refresh
+  deriving DecidableEq, Repr
+
+/-- a step with its guard `(mask, whenSet)`: it runs iff `mask = 0` or `(flags & mask != 0) = whenSet` -/
+abbrev GStep := LoadStep × Nat × Bool
+abbrev LoadSeq := List GStep
+
+def guardOk (flags : Nat) (g : Nat × Bool) : Bool := g.1 == 0 || (hasFlag flags g.1 == g.2)
+
+/-- hwloc_topology_refresh (topology.c): unconditional — the user may have added distances / attribute values even when
+    NO_DISTANCES / NO_MEMATTRS ignored what the OS reported.  (Before that repair the three steps were guarded:
+    `[(.rankKinds, flagNoCpukinds, false), (.refreshDists, flagNoDistances, false), (.refreshAttrs, flagNoMemattrs, false)]`.) -/
+def Model.refreshSeq : LoadSeq := [(.rankKinds, 0, false), (.refreshDists, 0, false), (.refreshAttrs, 0, false)]
+
+/-- the tail of hwloc_topology_load after hwloc_discover (topology.c), with the fix 6c24a9e: the restrict-to-binding
+    blocks are followed by a second refresh -/
+def Model.loadSeq : LoadSeq :=
+  [(.rankKinds, flagNoCpukinds, false),
+   (.invalidateDists, flagNoDistances, false), (.refreshDists, flagNoDistances, false),
+   (.needRefreshAttrs, flagNoMemattrs, false), (.refreshAttrs, flagNoMemattrs, false),
+   (.setLoaded, 0, false),
+   (.restrictCpubind, flagRestrictToCpubinding, true), (.restrictMembind, flagRestrictToMembinding, true),
+   (.refreshAll, flagRestrictToCpubinding ||| flagRestrictToMembinding, true)]
+
+/-- the same before 6c24a9e (finding F51) -/
+def Model.loadSeqUnfixed : LoadSeq := Model.loadSeq.dropLast
+
+/-- every function of hwloc/{memattrs,distances,cpukinds,topology-xml,topology,diff,shmem,traversal,bind,bitmap,
+    topology-synthetic,misc,pci-common}.c that calls a cache-(re)building function, in source order, with whether the call
+    is guarded by the validity flag.  The consulting entry points among them are exactly the writers of `events`:
+    the five memattr queries, hwloc__distances_get (the four public getters), the two XML exports, diff_build
+    (and hwloc_shmem_topology_write, covered by C19); a new caller breaks `C17_gen_lazy_callers_match`. -/
+def Model.lazyCallers : List (String × String × Bool) := [
+  ("memattrs.c:hwloc_internal_memattrs_refresh", "hwloc__imattr_refresh", true),
+  ("memattrs.c:hwloc_memattr_get_targets", "hwloc__imattr_refresh", true),
+  ("memattrs.c:hwloc_memattr_get_initiators", "hwloc__imattr_refresh", true),
+  ("memattrs.c:hwloc_memattr_get_value", "hwloc__imattr_refresh", true),
+  ("memattrs.c:hwloc__internal_memattr_set_value", "hwloc__imattr_refresh", false),
+  ("memattrs.c:hwloc_memattr_get_best_target", "hwloc__imattr_refresh", true),
+  ("memattrs.c:hwloc_memattr_get_best_initiator", "hwloc__imattr_refresh", true),
+  ("memattrs.c:hwloc__group_memory_tiers", "hwloc__imattr_refresh", true),
+  ("memattrs.c:hwloc__group_memory_tiers", "hwloc__imattr_refresh", true),
+  ("distances.c:hwloc_internal_distances_refresh", "hwloc_internal_distances_refresh_one", false),
+  ("distances.c:hwloc__distances_get", "hwloc_internal_distances_refresh", false),
+  ("cpukinds.c:hwloc_internal_cpukinds_restrict", "hwloc_internal_cpukinds_rank", false),
+  ("cpukinds.c:hwloc_cpukinds_register", "hwloc_internal_cpukinds_rank", false),
+  ("topology-xml.c:hwloc_topology_export_xml", "hwloc_internal_distances_refresh", false),
+  ("topology-xml.c:hwloc_topology_export_xmlbuffer", "hwloc_internal_distances_refresh", false),
+  ("topology.c:hwloc_topology_load", "hwloc_internal_cpukinds_rank", false),
+  ("topology.c:hwloc_topology_load", "hwloc_internal_distances_refresh", false),
+  ("topology.c:hwloc_topology_load", "hwloc_internal_memattrs_refresh", false),
+  ("topology.c:hwloc_topology_load", "hwloc_topology_refresh", false),
+  ("topology.c:hwloc_topology_refresh", "hwloc_internal_cpukinds_rank", false),
+  ("topology.c:hwloc_topology_refresh", "hwloc_internal_distances_refresh", false),
+  ("topology.c:hwloc_topology_refresh", "hwloc_internal_memattrs_refresh", false),
+  ("diff.c:hwloc_topology_diff_build", "hwloc_internal_distances_refresh", false),
+  ("diff.c:hwloc_topology_diff_build", "hwloc_internal_distances_refresh", false),
+  ("diff.c:hwloc_topology_diff_build", "hwloc_internal_memattrs_refresh", false),
+  ("diff.c:hwloc_topology_diff_build", "hwloc_internal_memattrs_refresh", false),
+  ("shmem.c:hwloc_shmem_topology_write", "hwloc_internal_distances_refresh", false),
+  ("shmem.c:hwloc_shmem_topology_write", "hwloc_internal_memattrs_refresh", false),
+  ("shmem.c:hwloc_shmem_topology_write", "hwloc_internal_distances_refresh", false),
+  ("shmem.c:hwloc_shmem_topology_write", "hwloc_internal_memattrs_refresh", false)]
+
+def Model.flags : List Nat :=
+  [flagRestrictToCpubinding, flagRestrictToMembinding, flagNoDistances, flagNoMemattrs, flagNoCpukinds]
+
+def invalidateDistsOnly (surv : Nat → Bool) (s : TopoState) : TopoState :=
+  { s with dists := s.dists.map (fun d => { d with valid := false, survives := surv d.id }) }
+
+def needRefreshAttrsOnly (s : TopoState) : TopoState :=
+  { s with attrs := s.attrs.map (fun a => if a.conv then a else { a with valid := false }) }
+
+/-- what the model cannot know about one load: which distances structures keep 2 objects after discovery / after each
+    binding restrict, and whether the binding restricts run at all (get_cpubind may fail, the set may cover everything) -/
+structure LoadOracle where
+  surv : Nat → Bool
+  survCpu : Nat → Bool
+  survMem : Nat → Bool
+  ranCpu : Bool
+  ranMem : Bool
+
+def effect (o : LoadOracle) : LoadStep → TopoState → TopoState
+  | .rankKinds, s | .setLoaded, s => s
+  | .invalidateDists, s => invalidateDistsOnly o.surv s
+  | .refreshDists, s => { s with dists := refreshDists s.dists }
+  | .needRefreshAttrs, s => needRefreshAttrsOnly s
+  | .refreshAttrs, s => { s with attrs := s.attrs.map validateAttr }
+  | .restrictCpubind, s => if o.ranCpu then invalidate o.survCpu s else s     -- restrict invalidates unconditionally
+  | .restrictMembind, s => if o.ranMem then invalidate o.survMem s else s
+  | .refreshAll, s => refresh s
+
+def runSeq (seq : LoadSeq) (flags : Nat) (o : LoadOracle) (s : TopoState) : TopoState :=
+  seq.foldl (fun x g => if guardOk flags g.2 then effect o g.1 x else x) s
+
+/-- the tail of `hwloc_topology_load` under flag word `flags` -/
+def loadTail (flags : Nat) (o : LoadOracle) (s : TopoState) : TopoState := runSeq Model.loadSeq flags o s
+
+/-- what load relies on for the caches its own tail skips under NO_DISTANCES / NO_MEMATTRS: nothing was discovered, so
+    nothing is invalid when load starts -/
+def FlaggedOffValid (flags : Nat) (s : TopoState) : Prop :=
+  (hasFlag flags flagNoDistances = true → ∀ d ∈ s.dists, d.valid = true) ∧
+  (hasFlag flags flagNoMemattrs = true → ∀ a ∈ s.attrs, a.valid = true)
+
+/-- every lazy cache is valid (convenience attributes included: the per-attribute queries never test their flag, but
+    hwloc_internal_memattrs_refresh — reached from hwloc_topology_diff_build and hwloc_shmem_topology_write — does) -/
 def CachesValid (s : TopoState) : Prop :=
-  (∀ d ∈ s.dists, d.valid = true) ∧ (∀ a ∈ s.attrs, a.valid = true ∨ (a.conv = true ∧ a.needInit = false))
+  (∀ d ∈ s.dists, d.valid = true) ∧ (∀ a ∈ s.attrs, a.valid = true)
 
 def Warm (s : TopoState) : Prop := ∀ c : StaticCache, c ∈ s.warm
 
@@ -186,7 +314,7 @@ def Valid (s : TopoState) : Prop := CachesValid s ∧ Warm s
 
 /-- executable versions (driver / examples) -/
 def cachesValidB (s : TopoState) : Bool :=
-  s.dists.all (·.valid) && s.attrs.all (fun a => a.valid || (a.conv && !a.needInit))
+  s.dists.all (·.valid) && s.attrs.all (·.valid)
 
 def allStatics : List StaticCache :=
   [.xmlVerbose, .nolibxmlImport, .nolibxmlExport, .libxmlInit, .hideErrors, .insertErrorReported, .linuxCpumaskSizes]
